@@ -5,7 +5,7 @@ use crate::{
     zx::memory::Page,
     Result,
 };
-use rustzx_z80::CodeGenerator;
+use rustzx_z80::{CodeGenerator, Z80};
 
 const PRIMARY_SCREEN_MEMORY_SIZE: usize = 6912;
 
@@ -38,6 +38,10 @@ where
     CodeGenerator::new(&mut emulator.controller)
         .codegen_set_addr(LOOP_ADDR)
         .jump(LOOP_ADDR);
+    // Park the CPU in that loop. State of the program which was running before (halt,
+    // pending prefix, enabled interrupts and their handler) should not be inherited,
+    // otherwise CPU leaves the loop and the picture may be overwritten
+    emulator.cpu = Z80::default();
     emulator.cpu.regs.set_pc(LOOP_ADDR);
 
     // Directly load screen memory from the asset
